@@ -19,7 +19,7 @@ READ_ENCODINGS = ['utf-8', 'utf-16', 'latin-1', 'utf-32-be', 'utf-16-be', 'utf-3
                   'Latin1', 'U32', 'iso-8859-15', 'koi8_r']
 
 DEFECTS = ['version_missing', 'version_2', 'version_int', 'length_missing', 'no_trailing_newline',
-           'format_yaml', 'json_truncated', 'json_trailing_comma', 'json_bareword', 'le_mac',
+           'format_yaml', 'json_truncated', 'json_trailing_comma', 'json_bareword', 'json_extra_data', 'le_mac',
            'main_repeated', 'main_not_first']
 
 
@@ -215,6 +215,10 @@ def build_file(ids, rng, style=None, encs=None, defect=None, defect_at=None, unk
                     applied = True
                 elif here and defect == 'json_bareword':
                     txt = 'nope'
+                    applied = True
+                elif here and defect == 'json_extra_data':
+                    # a complete value followed by more: a stray bracket, a second document, a word
+                    txt = txt.rstrip() + rng.choice(['}', ' ]', '\n{}', ' {"b": 2}', ' x', ',', '\n\n1'])
                     applied = True
                 try:
                     txt.encode(eff)
